@@ -1,6 +1,6 @@
 (** C08 — across operations: inputs locked by lock_outputs are not selected again. *)
 From V.Lib Require Import Base.
-From V.C08 Require Import Sql Model Spec ProofsSql ProofsSel ProofsProp ProofsGreedy ProofsAnchor.
+From V.C08 Require Import Sql Model ModelT Spec ProofsSql ProofsSel ProofsProp ProofsGreedy ProofsAnchor.
 From Coq Require Import ZifyBool.
 Local Open Scope Z_scope.
 
@@ -43,4 +43,43 @@ Proof.
   unfold not_locked_by_other in Hb. rewrite H1, H2 in Hb.
   apply orb_true_iff in Hb. destruct Hb as [Hb|Hb]; [lia|].
   apply existsb_exists in Hb. destruct Hb as [y [Hy He]]. apply Ho. replace owner with y by lia. exact Hy.
+Qed.
+
+(** ** store_transactions_to_be_sent: unlock_spent_notes releases exactly the locks of the outputs
+       the stored transaction spends, in their own pool's table *)
+
+Lemma spent_by_spec refs r : spent_by refs r = true <-> In (r_pool r, r_id r) refs.
+Proof.
+  unfold spent_by. rewrite existsb_exists. split.
+  - intros [x [Hx Hs]]. apply same_ref_eq in Hs. subst x. exact Hx.
+  - intros H. exists (r_pool r, r_id r). split; [exact H | apply same_ref_eq; reflexivity].
+Qed.
+
+Theorem unlock_spent_exact refs db :
+  rrefs (unlock_spent refs db) = rrefs db
+  /\ forall r, In r db ->
+       (In (r_pool r, r_id r) refs -> In (clear_lock r) (unlock_spent refs db))
+       /\ (~ In (r_pool r, r_id r) refs -> In r (unlock_spent refs db)).
+Proof.
+  unfold unlock_spent. split.
+  - unfold rrefs. rewrite map_map. apply map_ext. intros r. destruct (spent_by refs r); reflexivity.
+  - intros r Hr. split; intros H.
+    + apply in_map_iff. exists r. split; [|exact Hr]. rewrite (proj2 (spent_by_spec refs r) H). reflexivity.
+    + apply in_map_iff. exists r. split; [|exact Hr]. destruct (spent_by refs r) eqn:E; [|reflexivity].
+      exfalso. apply H. apply spent_by_spec. exact E.
+Qed.
+
+(** A lock held on an output the stored transaction does not spend survives the store — whatever
+    row ids the spent outputs have in other pools' tables. *)
+Theorem store_keeps_other_locks refs db owner expiry r :
+  In r db -> held owner expiry r -> ~ In (r_pool r, r_id r) refs ->
+  In r (unlock_spent refs db) /\ held owner expiry r.
+Proof. intros Hr Hh Hn. split; [apply (unlock_spent_exact refs db); assumption | exact Hh]. Qed.
+
+Theorem store_keeps_other_utxo_locks ids udb u :
+  In u udb -> ~ In (u_id u) ids -> In u (unlock_spent_utxos ids udb).
+Proof.
+  intros Hu Hn. unfold unlock_spent_utxos. apply in_map_iff. exists u. split; [|exact Hu].
+  unfold u_spent_by. destruct (existsb (Z.eqb (u_id u)) ids) eqn:E; [|reflexivity].
+  exfalso. apply Hn. apply existsb_exists in E. destruct E as [y [Hy He]]. replace (u_id u) with y by lia. exact Hy.
 Qed.
